@@ -345,3 +345,12 @@ Lemma subsecond_offset_counterexample :
 Proof.
   exists (dt 2020 2 3 12 0 0 700000), 500000. split; [reflexivity|]. intros []; vm_compute; discriminate.
 Qed.
+
+(* two instants are written as the same text only if they truncate to the same instant *)
+Lemma fmt_injective_lemma : forall p c t1 t2, in_range t1 = true -> in_range t2 = true ->
+  format Pad4 p c t1 = format Pad4 p c t2 -> floor_to (sp p) (sc c) t1 = floor_to (sp p) (sc c) t2.
+Proof.
+  intros p c t1 t2 R1 R2 E.
+  destruct (fmt_denotes_lemma p c t1 R1) as (r1 & S1 & D1). destruct (fmt_denotes_lemma p c t2 R2) as (r2 & S2 & D2).
+  rewrite E in S1. rewrite S1 in S2. inversion S2; subst. now apply denotes_unique with r2.
+Qed.
